@@ -862,7 +862,15 @@ def extra_items(n3, n2):
     # a sector wider than 120 degrees (the library clips its polygon with a kite-shaped mask)
     wide = {"kind": "sector", "center": [0.75, 0.5, Z0], "r": 2.25, "heading": -2.0, "angle": 3.9}
     circ = {"kind": "circle", "center": [0.5, 0.25, Z0], "r": 1.75}
+    # the surface of a convex mesh inside / across a footprint
+    fp = {"kind": "footprint", "exterior": [[-0.75, -1.0], [2.0, -1.0], [2.0, 1.25], [-0.75, 1.25]], "holes": []}
+    cube = {"kind": "mesh", "surface": True, "cells": [(0, 0, 0)], "pos": [0.0, 0.25, 1.25], "dims": [2.5, 2.5, 1.5], "ypr": [0.0, 0.0, 0.0]}
+    rel = [["overlap", fp, cube]]
+    ins = inside_spec(fp, cube)
+    if ins is not None:
+        rel.append(["inside", fp, ins])
     return [
+        {"t": "rel", "names": ["footprint1", "cube-surface"], "a": fp, "b": cube, "cfgs": rel, "n3": 9, "n2": 13},
         {"t": "op", "cfg": "touch", "names": ["meshvolU", "sector-touching"], "a": mesh, "b": touch, "op": "intersect", "n3": n3, "n2": n2},
         {"t": "op", "cfg": "touch", "names": ["sector-touching", "meshvolU"], "a": touch, "b": mesh, "op": "intersect", "n3": n3, "n2": n2},
         {"t": "prim", "name": "sector-wide", "a": wide, "n3": n3, "n2": n2},
